@@ -16,9 +16,58 @@ use crate::Ctx;
 use affinitree::pwl::afftree::AffTree;
 use serde_json::json;
 
+/// Coefficients near f64::MAX: for the decision [H, H] <= -H (the half-plane x0 + x1 <= -1 written in units of
+/// H = 1e308 or 2^1023) the products H*x0 and H*x1 overflow to +inf and -inf at every witness of the parent
+/// region {x0 >= a, x1 <= -b}, their sum is NaN, and a NaN slack is not "inside". No child may inherit such a
+/// witness; whatever is cached afterwards must satisfy the exact path conditions.
+fn run_overflow(case: u64, rng: &mut Rng, ev: &mut Ev) {
+    let a = *rng.pick(&[3.0, 4.0, 8.0]);
+    let b = *rng.pick(&[2.0, 3.0]);
+    let hh = *rng.pick(&[1e308, 8.98846567431158e307]);
+    let t = |v: f64| Aff { mat: vec![vec![1.0, 0.0]], bias: vec![v] };
+    ev.evaluations += 1;
+    let desc = json!({"overflow_tree": {"root": format!("-x0 <= -{}", a), "then": format!("x1 <= -{}", b), "then_": format!("{:e}*x0 + {:e}*x1 <= -{:e}", hh, hh, hh)}});
+    let built = lib(case, "build overflow tree", || -> Result<AffTree<2>, String> {
+        let mut tr = AffTree::<2>::from_aff(Aff { mat: vec![vec![-1.0, 0.0]], bias: vec![-a] }.to_lib());
+        let r = tr.tree.get_root_idx();
+        tr.add_child_node(r, 0, t(0.0).to_lib()).map_err(|e| e.to_string())?;
+        let n1 = tr.add_child_node(r, 1, Aff { mat: vec![vec![0.0, 1.0]], bias: vec![-b] }.to_lib()).map_err(|e| e.to_string())?;
+        tr.add_child_node(n1, 0, t(1.0).to_lib()).map_err(|e| e.to_string())?;
+        let n2 = tr.add_child_node(n1, 1, Aff { mat: vec![vec![hh, hh]], bias: vec![-hh] }.to_lib()).map_err(|e| e.to_string())?;
+        tr.add_child_node(n2, 0, t(2.0).to_lib()).map_err(|e| e.to_string())?;
+        tr.add_child_node(n2, 1, t(3.0).to_lib()).map_err(|e| e.to_string())?;
+        Ok(tr)
+    });
+    let mut tr = match built {
+        Ok(Ok(t)) => t,
+        _ => {
+            ev.skip("overflow tree could not be built");
+            return;
+        }
+    };
+    for round in 0..2 {
+        if let Err(pm) = lib(case, "infeasible_elimination (overflow tree)", || tr.infeasible_elimination()) {
+            ev.violation(case, "c05:overflow:panic", "", json!({"case": desc, "round": round, "panic": pm}));
+            return;
+        }
+        let s = snap(&tr);
+        if let Err((sig, msg)) = caches_sound(&s, ev) {
+            ev.violation(case, &format!("c05:{}:overflow-tree", sig), "", json!({"case": desc, "round": round, "problem": msg, "tree": s.to_json()}));
+            return;
+        }
+    }
+    ev.inc("overflow_trees_checked");
+    let mut h = Hasher::new();
+    h.s(&desc.to_string());
+    ev.nontrivial(h.fin());
+}
+
 pub fn run_case(ctx: &Ctx, case: u64, ev: &mut Ev) {
     let mut rng = Rng::derive(ctx.seed, "C05", case);
     rng.big = crate::draw_big(ctx, &mut rng);
+    if case % 200 == 13 {
+        return run_overflow(case, &mut rng, ev);
+    }
     if rng.chance(0.75) {
         run_history(case, &mut rng, ev);
     } else {
@@ -44,9 +93,12 @@ pub fn caches_sound(s: &Snap, ev: &mut Ev) -> Result<(usize, usize), (String, St
                     }
                     let pq = qv(p);
                     for (k, (row, b)) in rows.iter().enumerate() {
-                        let viol = dot(&qv(row), &pq).sub(&Q::from_f64(*b)).to_f64();
-                        let ulp_term: f64 = row.iter().zip(p.iter()).map(|(a, x)| (a * x).abs()).sum::<f64>() * 4.0 * f64::EPSILON;
-                        if viol > 1e-8 * (1.0 + 1e-6) + ulp_term {
+                        // everything in exact rationals: with coefficients near f64::MAX the products overflow in f64
+                        let violq = dot(&qv(row), &pq).sub(&Q::from_f64(*b));
+                        let act = row.iter().zip(p.iter()).fold(Q::zero(), |acc, (a, x)| acc.add(&Q::from_f64(*a).mul(&Q::from_f64(*x)).abs()));
+                        let tolq = Q::from_f64(1e-8 * (1.0 + 1e-6)).add(&act.mul(&Q::from_f64(4.0 * f64::EPSILON)));
+                        let viol = violq.to_f64();
+                        if violq.gt(&tolq) {
                             return Err((
                                 "witness-outside-path".into(),
                                 format!("node {}: stored witness {:?} violates path condition {} ({:?} <= {}) by {:e}", i, p, k, row, b, viol),
